@@ -242,7 +242,7 @@ Proof.
       assert (E : w_tok id0 l = if Z.eqb id0 id then 1 else 0) by (unfold w_tok; now rewrite Ht).
       rewrite E in H1. rewrite sumf_app. cbn -[mset mfind mremove Z.add tokens inmap].
       change (inmap id0 s0) with (inmap id0 s). fold s0 in H1. lia. }
-    destruct k as [tag|tag n|bid]; cbn -[mset mfind mremove Z.add tokens inmap].
+    destruct k as [tag|tag n|bid|tag]; cbn -[mset mfind mremove Z.add tokens inmap]; [|..|exact H0].
     + exact H0.
     + pose proof (send_more_acc n tag s0 _ H0) as H2.
       destruct (send_more n tag s0) as [s1 e1]. cbn [fst snd] in *.
@@ -366,7 +366,8 @@ Proof.
     set (s0 := set_local s r x).
     pose proof (cbtokens_set_local s r x) as H1. fold l in H1. change (w_cb x) with (w_cb l) in H1.
     fold s0 in H1.
-    destruct k as [tag|tag n|bid]; cbn -[cbtokens onall1 send_more].
+    destruct k as [tag|tag n|bid|tag]; cbn -[cbtokens onall1 send_more];
+      [|..|change (onall1 s0) with (onall1 s); lia].
     + change (onall1 s0) with (onall1 s). lia.
     + pose proof (send_more_locals n tag s0) as HL. pose proof (send_more_on_all n tag s0) as HO.
       destruct (send_more_no_compl n tag s0) as [HC HF].
@@ -576,7 +577,12 @@ Proof.
     simpl in Htok. destruct Htok as [HR HP].
     set (x := mkLocal (l_id l) (l_fired l) None (l_hit l) (l_done l) (l_cb l) (l_msgs l)).
     set (s0 := set_local s r x).
-    destruct k as [tag|tag n|bid]; cbn -[send_more].
+    destruct k as [tag|tag n|bid|tag]; cbn -[send_more].
+    4:{ apply (justified_weaken s _ evs _ J).
+      * intros id0 k0. apply Jmap.
+      * apply locals_set_local_tokJ; [apply Jloc|exact I].
+      * intros ? ? ? [E|[]]. inversion E; subst. split; apply in_or_app; auto.
+      * intros ? ? ? [E|[]]. discriminate. }
     + apply (justified_weaken s _ evs _ J).
       * intros id0 k0. apply Jmap.
       * apply locals_set_local_tokJ; [apply Jloc|exact I].
@@ -670,7 +676,7 @@ Proof.
   - unfold s_write. cbn. destruct (l_fired _); cbn; lia.
   - unfold r_lookup. destruct (mfind _ _); cbn; lia.
   - unfold r_consume. destruct (l_tok _) as [[[i k] a]|]; [|cbn; lia].
-    destruct k as [tag|tag n|bid]; cbn -[send_more].
+    destruct k as [tag|tag n|bid|tag]; cbn -[send_more]; [|..|lia].
     + lia.
     + pose proof (send_more_no_backend n tag
         (set_local s r (mkLocal (l_id (get_local s r)) (l_fired (get_local s r)) None
@@ -939,7 +945,12 @@ Proof.
             /\ count_completion e3 = 0 /\ count_cons id e3 = 1 /\ In (ECons id k a) e3
             /\ (forall bid, k = CRelay bid -> In (EBackend id bid a) e3 /\ count_backend id e3 = 1)).
   { unfold r_consume. rewrite G1. cbn [l_tok x1 l_id l_fired l_hit l_done l_cb l_msgs]. fold x2. fold s2.
-    destruct k as [tag|tag n|bid].
+    destruct k as [tag|tag n|bid|tag].
+    4:{ exists s2, [ECons id (CFail tag) a]. repeat split; auto.
+      + unfold count_cons; simpl. now rewrite Z.eqb_refl.
+      + now left.
+      + discriminate.
+      + discriminate. }
     - exists s2, [ECons id (CPlain tag) a]. repeat split; auto.
       + unfold count_cons; simpl. now rewrite Z.eqb_refl.
       + now left.
@@ -1186,3 +1197,16 @@ Lemma nv_history_ok :
      /\ In (EBackend 2 7 (Some [9%N])) (concat (snd r))
      /\ count_cons 3 (concat (snd r)) = 1.
 Proof. vm_compute. repeat split; try reflexivity. tauto. Qed.
+
+(* consumers that return an error: fail on the last answered, in the middle, all fail *)
+Lemma nv_failing_ok :
+  let run h := run_ops Impl (init true 1) h in
+  let c h := count_completion (concat (snd (run h))) in
+  let h_last := [OSend (CPlain 1) [1%N]; OSend (CFail 2) [2%N]; OFire; OResponse 1 true []; OResponse 2 true []] in
+  let h_mid := [OSend (CFail 1) [1%N]; OSend (CPlain 2) [2%N]; OFire; OResponse 1 false []; OResponse 2 true []] in
+  let h_all := [OSend (CFail 1) [1%N]; OSend (CFail 2) [2%N]; OFire; OResponse 2 true []; OResponse 1 true []] in
+  adm false h_last = true /\ adm false h_mid = true /\ adm false h_all = true
+  /\ outstanding (fst (run h_last)) = [] /\ c h_last = 1
+  /\ outstanding (fst (run h_mid)) = [] /\ c h_mid = 1
+  /\ outstanding (fst (run h_all)) = [] /\ c h_all = 1.
+Proof. vm_compute. repeat split; reflexivity. Qed.
